@@ -26,7 +26,7 @@ from .hubutil import HarnessError
 
 WORKERS = int(os.environ.get("VERIF_WORKERS", "16"))
 MAX_SAFE = 2 ** 53 - 1
-PLAN = {"C15": {"quick": 640, "thorough": 16000}, "C07": {"quick": 640, "thorough": 16000}, "C16": {"quick": 1600, "thorough": 80000}}
+PLAN = {"C15": {"quick": 640, "thorough": 12000}, "C07": {"quick": 640, "thorough": 10000}, "C16": {"quick": 1600, "thorough": 60000}}
 DEFAULT_BUDGET = {"quick": 90.0, "thorough": 1500.0}
 
 
@@ -654,7 +654,8 @@ def gen_cli_plan(seed, tier):
             src = "def f(a, *b):\n    'doc'\n    return a in {1, None}\n"
     plan = {"kind": "cli", "ver": ver, "hashseed": hs, "oracle_hashseed": hs if same_seed else rng.randint(0, 2 ** 32 - 1), "flags": flags,
             "source_kind": kind, "src": src, "module": (rng.choice(CLI_MODULES) if rng.chance(0.5) else rng.choice(["custom:cookie", "custom:pyc", "custom:zip"])) if kind == "m" else None,
-            "warm": rng.chance(0.3), "warm_n": rng.randint(2, 3), "warm_other": {k: rng.chance(0.5) for k in OUT_FLAGS}}
+            "warm": rng.chance(0.3), "warm_n": rng.randint(2, 3), "warm_other": {k: rng.chance(0.5) for k in OUT_FLAGS},
+            "e_bytes": kind == "e" and rng.chance(0.25)}
     if kind == "file" and not invalid and rng.chance(0.35):
         # durable state between invocations: the SAME path is rewritten with another program of the same
         # size and (simulated clock) the same modification time, then inspected again
@@ -706,6 +707,13 @@ def cli_argv(plan, workdir):
         # the CLI turns the two characters backslash-n of a -c argument into a newline -- and nothing else
         arg = src.replace("\n", "\\n")
         return out + ["-c", arg], {"source_kind": "c", "source": arg.replace("\\n", "\n"), "filename": "<string>", "flags": flags}
+    if kind == "e" and plan.get("e_bytes"):
+        # the expression evaluates to BYTES carrying a PEP 263 coding cookie (compile() honours it)
+        body = "# -*- coding: latin-1 -*-\nzz_s = 'caf\xe9 \xfc'\n" + "".join(ch for ch in src if ord(ch) < 128)
+        raw = body.encode("latin-1")
+        import base64
+
+        return out + ["-e", repr(raw)], {"source_kind": "e", "source_b64": base64.b64encode(raw).decode("ascii"), "filename": "<string>", "flags": flags}
     if kind == "e":
         expr = " + linesep + ".join(repr(line) for line in src.split("\n"))
         expected_src = os.linesep.join(src.split("\n"))
@@ -875,6 +883,8 @@ def exec_cli(plan, tree, log=None):
                 log.violate("C16", "L1-usage-error-expected", "+".join(sorted(x[0] for x in plan["sources"])) or "none",
                             {"status": status, "stdout": stdout[:200], "argv": [a.replace(workdir, "<wd>") for a in argv], "sources_in_order": plan["sources"]})
             return log
+        if plan.get("e_bytes") and plan["source_kind"] == "e" and "sources" not in plan:
+            log.count("fault_e_expression_evaluates_to_bytes_with_coding_cookie")
         if inv:
             log.count("fault_empty_source")
         elif plan["source_kind"] in ("c", "e") and "\\n" in (plan.get("src") or ""):
